@@ -241,6 +241,9 @@ func (p *textProgressBar) onStep(step int64) {
 		return
 	}
 	step += p.preSize
+	if p.fileSize > 0 && step > p.fileSize {
+		step = p.fileSize // never show more than the whole file
+	}
 	if step <= p.fileStep {
 		return
 	}
@@ -408,6 +411,11 @@ func (p *textProgressBar) getProgressBar(length int) string {
 	fullSize := totalSize
 	if p.fileSize != 0 {
 		fullSize = int(math.Round((float64(totalSize) * float64(p.fileStep)) / float64(p.fileSize)))
+	}
+	if fullSize < 0 {
+		fullSize = 0
+	} else if fullSize > totalSize {
+		fullSize = totalSize
 	}
 	emptySize := totalSize - fullSize
 	if p.colorA == nil || p.colorB == nil {
